@@ -112,7 +112,7 @@ CHECKS = {
              'components intact), V1 encodings are decoded under V2 and compared with the value.',
         note='Cases whose own-version round trip fails are C01 business and skipped (counted); V2 is re-checked for tag distinctness by my tag computation.'),
     'C09': dict(
-        category='sanitizer', design_ref='DESIGN.md 4 C09/C10',
+        category='exploration', design_ref='DESIGN.md 4 C09/C10',
         technique='runtime monitoring + compiler sanitizers: generated C built with clang AddressSanitizer+UndefinedBehaviorSanitizer (-fno-sanitize-recover=all) and a driver generated from my AST; Python UPER codec as reference oracle',
         text='For generated modules in the documented UPER C subset the generated source must compile as C99 (gcc gate); value -> struct -> encode '
              'must equal the Python bytes, every smaller destination must be refused, Python bytes -> decode must reproduce every field; truncated, '
@@ -120,7 +120,7 @@ CHECKS = {
              'constructs outside the subset must be refused or translated faithfully.',
         note='Struct members are addressed by the documented naming conventions; intra-struct overflows are only seen through the field comparison.'),
     'C10': dict(
-        category='sanitizer', design_ref='DESIGN.md 4 C09/C10',
+        category='exploration', design_ref='DESIGN.md 4 C09/C10',
         technique='runtime monitoring + compiler sanitizers: generated C built with clang AddressSanitizer+UndefinedBehaviorSanitizer (-fno-sanitize-recover=all) and a driver generated from my AST; Python OER codec as reference oracle; newer-version encodings decoded by older generated C',
         text='As C09 for the OER generator (plus REAL binary32/64 and SEQUENCE extension additions with presence flags); in addition encodings of a '
              'version-2 specification (version 1 plus unknown additions) produced by the Python codec must be decoded by the C generated from version 1: '
